@@ -44,7 +44,9 @@ COMPONENTS_STUB = ["SimpleBatcher in origin_models -> FailingBatcher subclass (i
 EXPECTED_PROBES = ["alloc_fault_fired", "retry_after_alloc_error", "batch_size_1", "batch_nondivisor",
                    "batch_larger_than_n", "planted_plane", "planted_constant", "integer_shift",
                    "looped_path", "vectorised_path", "nonsquare_detector", "nonsquare_scan",
-                   "fit_origin_plane", "history_reuse_after_shift"]
+                   "fit_origin_plane", "history_reuse_after_shift", "intensity_scale_tiny",
+                   "intensity_scale_huge", "counts_beyond_float32_integers", "detector_side_ge_16",
+                   "more_than_64_patterns"]
 
 _ctx = {}
 
@@ -81,6 +83,11 @@ def setup():
 def gen(rng: Rng, tier, i):
     scan = [rng.pick([2, 3, 4, 5]), rng.pick([2, 3, 4, 6])]
     det = [rng.pick([3, 4, 5, 6, 8, 9]), rng.pick([3, 4, 5, 7, 8])]
+    big = rng.fork("big")
+    if big.chance(0.06):      # sizes beyond the usual small ones: power-of-two / >= 16 detector sides,
+        det = [big.pick([16, 17, 32, 33, 64]), big.pick([16, 24, 32, 65])]   # more than 64/128 patterns
+    if big.chance(0.06):
+        scan = [big.pick([8, 9, 12, 16]), big.pick([9, 11, 16, 17])]
     n = scan[0] * scan[1]
     ops = []
     for j in range(rng.pick([4, 6, 9])):
@@ -107,6 +114,9 @@ def gen(rng: Rng, tier, i):
         ops.append(op)
     return {"scan": scan, "det": det, "fill": rng.randrange(10 ** 6), "ops": ops,
             "dtype": rng.pick(["float32", "float32", "float64", "uint16", "int32"]),
+            # intensity scale 2**e (exact in binary floating point): the centre of mass is scale-free
+            "scale_e": rng.fork("scale").pick([0, 0, 0, 0, -70, -50, -30, -12, -3, 7, 24, 40, 60]),
+            "count_mul": rng.fork("scale").pick([1, 1, 1, 37, 4096, 1 << 19]),
             "raster": rng.chance(0.35), "raster_fit": rng.pick(["constant", "plane", "none"])}
 
 
@@ -120,8 +130,15 @@ def _data(plan):
             a[i, j, g.integers(0, H), g.integers(0, W)] += g.uniform(3, 10)
     dt = plan.get("dtype", "float32")
     if dt in ("uint16", "int32"):
-        return np.round(a * 50 + 1).astype(dt)   # positive integer counts
-    return a.astype(dt)
+        cnt = np.round(a * 50 + 1)               # positive integer counts
+        if dt == "int32":
+            cnt = cnt * plan.get("count_mul", 1)  # up to ~2.9e8: beyond float32's exact integers
+        return cnt.astype(dt)
+    return (a.astype(dt) * dt_scale(dt, plan.get("scale_e", 0))).astype(dt)
+
+
+def dt_scale(dt, e):
+    return np.dtype(dt).type(2.0) ** np.dtype(dt).type(e)
 
 
 def _ref_com(a):
@@ -156,6 +173,16 @@ def run(plan):
         bump(probes, "nonsquare_detector")
     if sx != sy:
         bump(probes, "nonsquare_scan")
+    if a.dtype.kind == "f" and plan.get("scale_e", 0) <= -30:
+        bump(probes, "intensity_scale_tiny")
+    if a.dtype.kind == "f" and plan.get("scale_e", 0) >= 24:
+        bump(probes, "intensity_scale_huge")
+    if a.dtype.kind == "i" and plan.get("count_mul", 1) >= 4096:
+        bump(probes, "counts_beyond_float32_integers")
+    if max(H, W) >= 16:
+        bump(probes, "detector_side_ge_16")
+    if n > 64:
+        bump(probes, "more_than_64_patterns")
     ref_r, ref_c = _ref_com(a)
     ref = np.stack([ref_r.ravel(), ref_c.ravel()], -1)
     tol = 2e-5 * max(H, W)
@@ -379,6 +406,10 @@ def shrink(plan):
             p = copy.deepcopy(plan)
             p["ops"][i]["b"] = None
             yield p
+    if plan.get("scale_e", 0):
+        yield {**plan, "scale_e": 0}
+    if plan.get("count_mul", 1) != 1:
+        yield {**plan, "count_mul": 1}
     for key, small in (("scan", [2, 2]), ("det", [3, 3]), ("scan", [2, 3]), ("det", [3, 4])):
         if plan[key] != small:
             yield {**plan, key: small}
